@@ -57,7 +57,10 @@ class Run:
         json.dump(ev, open(evidence_path(pid), "w"), indent=1)
         for k in known:
             if k["state"] == "open" and self.known_seen.get(k["cls"], 0) > 0:
-                print("KNOWN-FINDING: property=%s %s" % (k.get("pid", pid), k["text"]))
+                origin = k.get("pid", pid)
+                text = k["text"] if k["text"].strip().lower() != "same" else "same finding in another family"
+                note = "" if origin == pid else " [recorded under %s in known_findings.txt; it shows in this check's families too]" % origin
+                print("KNOWN-FINDING: property=%s class=%s %s%s" % (pid, k["cls"], text, note))
         if self.violations:
             # prefer a violation with a concrete failing input
             self.violations.sort(key=lambda v: not v[1])
